@@ -21,6 +21,8 @@ fn usage() -> ! {
 pub fn judge_for(property: &str) -> Option<fn(&Case) -> Outcome> {
     Some(match property {
         "C02" => checks::c02::judge,
+        "C06" => checks::c06::judge,
+        "C09" => checks::c09::judge,
         _ => return None,
     })
 }
@@ -55,6 +57,8 @@ fn main() {
             }
             let code = match id.as_str() {
                 "C02" => checks::c02::run(&tier, seed),
+                "C06" => checks::c06::run(&tier, seed),
+                "C09" => checks::c09::run(&tier, seed),
                 _ => {
                     eprintln!("unknown property {id}");
                     2
